@@ -107,17 +107,41 @@ def dstOf (port : Nat) : Option Nat := if port > 0 then some port else none
 def chainsFor (m : Merged) (port : Nat) (proto : LProto) : List LChain :=
   (chains (m.modeForPort port) proto).map (fun c => { dst := dstOf port, chain := c })
 
-/-- `needPerPortPassthroughFilterChain` for a proxy without Sidecar ingress listeners: the port is not
-    a target port of one of the proxy's services. -/
-def needPerPort (svcPorts : List (Nat × LProto)) (port : Nat) : Bool := !(svcPorts.any (fun sp => sp.1 == port))
+/-- One inbound chain config (`inboundChainConfig`): built from a service target of the proxy
+    (`getFilterChainsByServicePort`) or, when the Sidecar resource has ingress listeners, from an
+    ingress listener.  The generator reads the **target** port only (`cc.port.TargetPort`); the
+    service port is carried so that the correspondence covers services whose port differs from the
+    target port.  `userTLS`: a Sidecar ingress listener with its own `tls` settings (SIMPLE). -/
+structure SvcPort where
+  port    : Nat
+  target  : Nat
+  proto   : LProto
+  userTLS : Bool := false
+  deriving DecidableEq, Repr
 
-/-- The filter chains of the virtualInbound listener of a sidecar whose services have the given
-    (target port, listener protocol) pairs: per-service chains (`ForPort`), the catch-all passthrough
-    chains (port 0) and one set of passthrough chains per port-level setting that is not a service
-    port (`ForPassthrough`). -/
-def inboundChains (root : String) (ps : List PA) (w : Workload) (svcPorts : List (Nat × LProto)) : List LChain :=
+/-- `getTLSFilterChainMatchOptions` + `BuildListenerTLSContext` (SIMPLE): the chain for a Sidecar
+    ingress listener with user TLS settings; used only when the port's mTLS mode is DISABLE. -/
+def userTLSChain (proto : LProto) : Chain :=
+  { transportTLS := true, terminate := true, http := proto == .http, alpn := .any, sock := .tls }
+
+/-- The chains of one chain config (`buildInboundListeners`, loop body). -/
+def entryChains (m : Merged) (sp : SvcPort) : List LChain :=
+  if sp.userTLS && m.modeForPort sp.target == .disable then
+    [{ dst := dstOf sp.target, chain := userTLSChain sp.proto }]
+  else chainsFor m sp.target sp.proto
+
+/-- `needPerPortPassthroughFilterChain`: the port is not the target port of one of the proxy's
+    services / not an ingress listener port of its Sidecar. -/
+def needPerPort (svcPorts : List SvcPort) (port : Nat) : Bool := !(svcPorts.any (fun sp => sp.target == port))
+
+/-- The filter chains of the virtualInbound listener of a sidecar with the given chain configs:
+    per-config chains (`ForPort` of the target port), the catch-all passthrough chains (port 0) and one
+    set of passthrough chains per port-level setting whose port is not a target port (`ForPassthrough`).
+    The generator keeps one config per target port (`chainsByPort`); the harness only produces distinct
+    target ports. -/
+def inboundChains (root : String) (ps : List PA) (w : Workload) (svcPorts : List SvcPort) : List LChain :=
   let m := compose root ((initAuthn root ps).configsFor w)
-  svcPorts.flatMap (fun sp => chainsFor m sp.1 sp.2) ++
+  svcPorts.flatMap (entryChains m) ++
   chainsFor m 0 .auto ++
   (m.perPort.filter (fun e => needPerPort svcPorts e.1)).flatMap (fun e => chainsFor m e.1 .auto)
 
